@@ -426,6 +426,38 @@ def with_value(model, i, new):
     return out
 
 
+def norm_change(ch):
+    """[i, new] (older replays: a value change) or [kind, i, new] with kind in {"value", "error"}"""
+    return ["value"] + list(ch) if len(ch) == 2 else list(ch)
+
+
+def pick_change(model, rng, corr=()):
+    """a change of one measurement's central value (inside the domain) or of its uncertainty; uncertainty changes are
+    preferred for correlated measurements (the correlation set stays, the covariance term must follow the new uncertainty)"""
+    correlated = sorted({i for c in corr for i in c[:2]})
+    if correlated and rng.random() < 0.6 or rng.random() < 0.15:
+        i = rng.choice(correlated or [k for k, m in enumerate(model) if m[0] == "meas"])
+        new = rng.choice([e for e in (0.125, 0.25, 0.5, 1.0, 0.75, 2.0) if e != model[i][2]])
+        return ["error", i, new]
+    ch = pick_value_change(model, rng)
+    return ["value"] + list(ch) if ch else None
+
+
+def apply_change_model(model, ch):
+    kind, i, new = norm_change(ch)
+    out = list(model)
+    out[i] = ("meas", float(new), model[i][2]) if kind == "value" else ("meas", model[i][1], float(new))
+    return out
+
+
+def apply_change_impl(w, ch):
+    kind, i, new = norm_change(ch)
+    if kind == "value":
+        w.objs[i].value = new
+    else:
+        w.objs[i].error = new
+
+
 def fd_derivative(model, k, m):
     """Ridders' extrapolated central differences of object k with respect to measurement m;
     returns (estimate, error estimate)"""
